@@ -17,3 +17,31 @@ pub proof fn lemma_le_seq_len2(v: nat)
 {
     reveal_with_fuel(le_seq, 3);
 }
+
+// total size rounded up to whole blocks
+pub open spec fn pad_block(n: nat) -> nat {
+    (((n + 4095) / 4096) * 4096) as nat
+}
+
+pub proof fn lemma_head_len(r: &Record)
+    ensures
+        head_v1(r).len() == 18 + rec_key_spec(r).len(),
+        head_v2(r).len() == 26 + rec_key_spec(r).len(),
+{
+    reveal_with_fuel(le_seq, 9);
+}
+
+pub proof fn lemma_pad_block(total: int, sectors: int)
+    requires 0 <= total, sectors == (total + 4096 - 1) / 4096,
+    ensures
+        sectors * (FEOX_BLOCK_SIZE as int) == pad_block(total as nat),
+        sectors * 4096 >= total,
+        sectors * 4096 < total + 4096,
+{
+    assert(sectors * (FEOX_BLOCK_SIZE as int) == sectors * 4096) by (nonlinear_arith)
+        requires FEOX_BLOCK_SIZE == 4096;
+}
+
+pub open spec fn extent_image(head: Seq<u8>, value: Seq<u8>, padded: nat) -> Seq<u8> {
+    le_seq(0xABCD, 2) + le_seq(0, 2) + head + value + Seq::new((padded - 4 - head.len() - value.len()) as nat, |i: int| 0u8)
+}
